@@ -115,7 +115,9 @@ Definition c03_hist_check (c : hist_case) : issues :=
 Definition c04_boundary (s : snap) : issues :=
   spec_if (sp_oracle s =? sp_oracle_owed s) "oracle account differs from the sum of unpaid tips on open queries"
   ++ spec_if (sp_tips_floor s <=? sp_tips s) "tips escrow pool holds less than the whole-unit credits of the selectors"
-  ++ spec_if (sp_tips_scaled s <=? sp_tips s * P + sp_tips_entries s * P) "tips escrow pool holds less than the credited rewards"
+  (* credits are written with 18 decimals and one rounding per credit entry: the pool may fall short of
+     them by sub-unit dust only (10^-12 of a smallest unit allows 10^6 roundings) *)
+  ++ spec_if (sp_tips_scaled s - sp_tips s * P <=? 1000000) "tips escrow pool holds less than the credited rewards"
   ++ spec_if (sp_bridge s =? 0) "bridge account holds tokens at a block boundary".
 
 Definition c04_step (_ : snap) (s : hstep) : issues :=
@@ -131,7 +133,17 @@ Definition c05_inv (s : snap) : issues :=
   ++ spec_if (sp_shares_pos s) "a delegation without positive shares exists"
   ++ spec_if (sp_tokens_nonneg s) "a validator has negative tokens".
 
-Definition c05_step (_ : snap) (s : hstep) : issues := c05_inv (st_after s).
+(* what the pools hold beyond the ledger *)
+Definition pool_slack (s : snap) : Z := (sp_bonded s - sp_bonded_ledger s) + (sp_notbonded s - sp_notbonded_ledger s).
+
+(* stake taken leaves ledger and pools by the same amount; stake put back enters both by the same
+   amount except for at most one smallest unit per returned entry, which stays in the pool *)
+Definition c05_step (before : snap) (s : hstep) : issues :=
+  c05_inv (st_after s)
+  ++ spec_if (pool_slack before <=? pool_slack (st_after s))
+             ("the staking ledger grew by more than the pools, or the pools lost more than the ledger, in " ++ st_op s)
+  ++ spec_if (pool_slack (st_after s) - pool_slack before <=? 64)
+             ("the pools received more than the ledger records (beyond one unit per returned entry) in " ++ st_op s).
 
 Definition c05_hist_check (c : hist_case) : issues :=
   let 'Hist init steps := c in c05_inv init ++ walk c05_step init steps.
